@@ -113,6 +113,11 @@ class G(object):
         spec = {"kind": "sp", "name": "sp%d" % i, "key": 3 + i, "enc_keys": [6 + 2 * i], "tenant": tenant,
                 "wrs": False, "was": False, "waors": False}
         spec.update(kw)
+        if self.prop != "C02":
+            # swarm: now and then an option is not configured at all, the documented default decides
+            for k_ in ("wrs", "was", "waors", "allow_unsolicited"):
+                if self.rl.chance(0.15):
+                    spec[k_] = None
         self.nodes.append(spec)
         return spec
 
@@ -181,9 +186,10 @@ class G(object):
     def sign_params(self, sp, enc_ok=True):
         """A signing/encryption combination that satisfies the SP's requirements."""
         r = self.r
-        sr = bool(sp.get("wrs")) or r.chance(0.4)
-        sa = bool(sp.get("was")) or r.chance(0.4)
-        if sp.get("waors") and not (sr or sa):
+        fl = fed.effective_flags(sp)
+        sr = fl["wrs"] or r.chance(0.4)
+        sa = fl["was"] or r.chance(0.4)
+        if fl["waors"] and not (sr or sa):
             if r.chance(0.5):
                 sr = True
             else:
@@ -329,6 +335,8 @@ def gen_c02(seed, tier):
     for i in range(8):
         sps.append(g.add_sp(i, wrs=bool(i & 1), was=bool(i & 2), waors=bool(i & 4),
                             enc_keys=[6 + (i % 6)], key=3 + (i % 3)))
+    # ... and a ninth SP that leaves all three options to their documented defaults
+    sps.append(g.add_sp(8, wrs=None, was=None, waors=None, enc_keys=[8], key=5))
     g.draw_skews(choices=(0, 0, 1, -1, 3))
     faulty = (seed % 2 == 1)
     g.knobs = {"class": "faulty" if faulty else "clean"}
@@ -599,7 +607,7 @@ def gen_c03(seed, tier):
                 g.ev("misdeploy", node=sp["name"], key=sp["enc_keys"][0], cert=r.pick(["own", "other"]))
             elif fk == "idp-initiated-encrypted-first":
                 fu = g.new_flow()
-                pu = {"sign_response": True, "sign_assertion": bool(sp.get("was")), "encrypt": True,
+                pu = {"sign_response": True, "sign_assertion": fed.effective_flags(sp)["was"], "encrypt": True,
                       "identity": g.identity(hostile=0.1), "lifetime": 3600}
                 g.ev("unsol", f=fu, idp=idp["name"], sp=sp["name"], p=pu, sub=g.sub())
                 g.tick()
